@@ -167,6 +167,25 @@ func resultKinds() []kindSpec {
 		{"named-ptr", func(b *PB, pkg int) *Ty {
 			return b.NamedOf(pkg, fmt.Sprintf("NP%d", b.next()), PtrTo(b.Carrier(pkg, "")), "wrap")
 		}},
+		{"chan-of-unnamed-struct", func(b *PB, pkg int) *Ty {
+			return ChanOf("", StructOf(idField, FieldT{Name: fmt.Sprintf("Tag%d", b.next()), Ty: Basic("bool")}))
+		}},
+		{"ptr-ptr-array", func(b *PB, pkg int) *Ty { return PtrTo(PtrTo(ArrayOf(2, b.Carrier(pkg, "")))) }},
+		{"func-of-unnamed-struct", func(b *PB, pkg int) *Ty {
+			return FuncRet(StructOf(idField, FieldT{Name: fmt.Sprintf("Tag%d", b.next()), Ty: Basic("bool")}))
+		}},
+		{"named-unicode", func(b *PB, pkg int) *Ty { return b.Carrier(pkg, fmt.Sprintf("Ωm%d", b.next())) }},
+		{"named-underscore", func(b *PB, pkg int) *Ty { return b.Carrier(pkg, fmt.Sprintf("T_%d_", b.next())) }},
+		{"named-single-letter", func(b *PB, pkg int) *Ty {
+			// one-rune exported names (Cyrillic capitals), unique per program
+			k := 0
+			for _, d := range b.P.Decls {
+				if len([]rune(d.Name)) == 1 {
+					k++
+				}
+			}
+			return b.NamedOf(pkg, string(rune(0x410+k%32)), StructOf(idField), "struct")
+		}},
 		{"named-chan", func(b *PB, pkg int) *Ty {
 			return b.NamedOf(pkg, fmt.Sprintf("NCh%d", b.next()), ChanOf("", b.Carrier(pkg, "")), "wrap")
 		}},
